@@ -27,7 +27,7 @@ type Settings struct {
 	DurInt                                                                  bool
 	Prec                                                                    int
 	StackMarshaler                                                          bool
-	LevelStyle                                                              int // 0 default LevelFieldMarshalFunc; 1 upper-case with NoLevel -> "DEFAULT"; 2 numeric; 3 info -> ""
+	LevelStyle                                                              int // 0 default LevelFieldMarshalFunc; 1 upper-case with NoLevel -> "DEFAULT"; 2 numeric; 3 info -> ""; 4 (directed sweeps only) a text with a quote, a backslash, a control byte and an ill-formed byte around the level name
 }
 
 // the levels the generators use (a custom LevelFieldMarshalFunc is shipped to the model as a table over them)
@@ -47,6 +47,8 @@ func (s Settings) levelText(l zerolog.Level) string {
 			return ""
 		}
 		return l.String()
+	case 4:
+		return "l\"v\\" + l.String() + "\n\xff"
 	}
 	return l.String()
 }
@@ -134,8 +136,11 @@ func (s Settings) Apply() func() {
 	}
 }
 
-// CallerText is what the harness's CallerMarshalFunc answers; CallerRuns counts its invocations.
-const CallerText = "src.go:42"
+// CallerText is what the harness's CallerMarshalFunc answers (a directed sweep may set another text for the time of its
+// cases: the printers read it when the case is printed); CallerRuns counts its invocations.
+var CallerText = DefaultCallerText
+
+const DefaultCallerText = "src.go:42"
 
 var CallerRuns int
 
@@ -812,9 +817,79 @@ func errorsNew(s string) error { return plainErr{s} }
 
 // Describe is the JSON twin of a primitive (for samples / replays).
 func (p Prim) Describe() interface{} {
+	switch v := p.V.(type) {
+	case time.Time:
+		return map[string]interface{}{"method": p.M, "arg": describeTime(v)}
+	case []time.Time:
+		xs := make([]string, len(v))
+		for i := range v {
+			xs[i] = describeTime(v[i])
+		}
+		return map[string]interface{}{"method": p.M, "arg": xs}
+	}
 	s := fmt.Sprintf("%#v", p.V)
 	if len(s) > 200 {
 		s = s[:200] + "..."
 	}
 	return map[string]interface{}{"method": p.M, "arg": strings.ToValidUTF8(s, "?")}
 }
+
+// describeTime: the instant and its zone, readable for any year and offset
+func describeTime(t time.Time) string {
+	name, off := t.Zone()
+	return fmt.Sprintf("%s (unix %d s + %d ns, zone %q offset %d s)", t.Format("2006-01-02T15:04:05.999999999Z07:00:00"), t.Unix(), t.Nanosecond(), name, off)
+}
+
+// ---------------------------------------------------------------- directed value tables
+type typeBox[T any] struct{ v T }
+
+// AwkwardTypeValues: values whose TYPE NAME (reflect.Type.String(), what Type() logs) is not plain identifier
+// text: unnamed struct types print their field tags as quoted Go strings (quote and backslash characters), field
+// names may be any letters, instantiated generic types print their argument lists; wrapped in every type constructor.
+func AwkwardTypeValues() []interface{} {
+	type tagged = struct {
+		ID int `json:"id"`
+	}
+	return []interface{}{
+		tagged{},
+		&tagged{},
+		[]tagged{},
+		map[string]tagged{},
+		func(tagged) {},
+		make(chan tagged),
+		[2]tagged{},
+		struct {
+			A string "x:\"\\\\\""
+			B bool   `yaml:"b,omitempty" json:"b"`
+		}{},
+		struct {
+			D int "tab\there\nline"
+		}{},
+		struct {
+			F int "\x80\xff"
+		}{},
+		struct {
+			E int "é€𝄞 \u2028"
+		}{},
+		struct{ É, 世界 int }{},
+		struct {
+			G int `<script>&`
+		}{},
+		typeBox[tagged]{},
+		typeBox[map[string][]*tagged]{},
+		struct{ Inner struct{ X int "a\\b" } }{},
+		someStruct{}, 1, nil, // the plain ones for comparison
+	}
+}
+
+// ExtremeYears: years at which a hand-written date formatter changes shape: the sign, the number of digits, two's
+// complement widths, the ends of what time.Time represents (its Unix seconds fit an int64 from -292277022399 to
+// 292277026596).
+var ExtremeYears = []int{-292277022399, -1 << 31, -1000000, -100000, -65537, -65536, -32769, -32768, -10001, -10000, -9999, -1001, -1000, -999, -101, -100, -99, -11, -10, -9, -1,
+	0, 1, 9, 10, 99, 100, 999, 1000, 9999, 10000, 10001, 32767, 32768, 65535, 65536, 99999, 100000, 1000000, 1<<31 - 1, 1 << 31, 292277026596}
+
+// ExtremeZoneOffsets (seconds east of UTC): beyond a day, beyond two digits of hours, beyond what fits 16 / 31 bits
+var ExtremeZoneOffsets = []int{86399, -86399, 86400, -86400, 359999, -359999, 360000, -360000, 440 * 3600, -440 * 3600, 1000 * 3600, -1000*3600 - 59, 1 << 30, -(1 << 30), 1<<31 - 1, -(1 << 31)}
+
+// YearTime: a fixed month / day / clock in the given year (UTC)
+func YearTime(year int) time.Time { return time.Date(year, time.March, 4, 5, 6, 7, 0, time.UTC) }
